@@ -1,7 +1,7 @@
 """Per-property checks: which scenarios, how many, on which configurations."""
 import time
 
-from . import runner, scen_bus, scen_hostile, scen_rules, scen_deadline, scen_access, scen_res, scen_alloc  # noqa: F401 (scenario registration)
+from . import runner, scen_bus, scen_hostile, scen_rules, scen_deadline, scen_access, scen_res, scen_alloc, scen_connend, scen_http  # noqa: F401 (scenario registration)
 from .runner import report, run_cases, seed
 
 CHECKS = {}
@@ -15,8 +15,8 @@ def check(pid):
     return deco
 
 
-def mk(kind, count, base, config="default", lane="asan", **params):
-    return [dict(kind=kind, seed=base * 1000003 + i, config=config, lane=lane, params=params) for i in range(count)]
+def mk(kind, _count, base, config="default", lane="asan", **params):
+    return [dict(kind=kind, seed=base * 1000003 + i, config=config, lane=lane, params=params) for i in range(_count)]
 
 
 def replay(rep):
@@ -286,3 +286,61 @@ def c15(tier):
                   "distinct = (script, transport of the victim) signatures; allocations counted: %d" % total,
                   t0, tier, SIM_ASSUME + ["only allocations through cjet_malloc/cjet_calloc (incl. cJSON hooks) are failed; zlib/websocket plain malloc is not used by the daemon's enabled features"],
                   extra_cov={"allocations_in_corpus": total, "exhaustive": not q}, min_events={"faults_fired": 100, "probes": 100})
+
+
+@check("C05")
+def c05(tier):
+    t0 = time.time()
+    s = seed()
+    q = tier == "quick"
+    from .scen_connend import CELLS
+    n = len(CELLS)
+    cases = []
+    if q:
+        import random
+        rng = random.Random(s)
+        for i in range(n):
+            cases.append(dict(kind="connend", seed=s * 1000003 + i, config=rng.choice(["default", "default", "tiny", "one"]), params=dict(cell=i)))
+    else:
+        for rep in range(8):
+            for i in range(n):
+                cases.append(dict(kind="connend", seed=(s + rep) * 1000003 + i, config=["default", "tiny", "one", "wide"][rep % 4], params=dict(cell=i)))
+    w = dict(add=12, remove=4, change=8, fetch=8, unfetch=3, get=2, route=14, reply=8, advance=2, connect=6, disconnect=14, misc=1)
+    cases += mk("bus", 150 if q else 5000, s + 50, "default", n_ops=80, opts=dict(weights=w))
+    res = run_cases(cases)
+    return report("C05", "exploration", res,
+                  "the product {raw, unix, WebSocket} x role {idle, owner, subscriber, caller, owner of in-flight requests, both, unsent buffered output, everything} x "
+                  "phase {between messages, mid length prefix, mid message, after zero length / mid request line, mid headers, after 101, mid frame header, mid "
+                  "payload, mid fragmented message} x ending {FIN, RST, oversize length, bad JSON, non-object, stray response / close frames 1000, 1001, 999, "
+                  "1-byte, bad UTF-8, unmasked, RSV, reserved opcode} (%d cells; all of them once in quick, x 8 kernel policies in thorough) plus "
+                  "disconnect-heavy random histories; monitors: the victim is released, its elements vanish from every replica, requests routed to it are answered "
+                  "with an error, nothing is generated for it afterwards, descriptor hygiene, a third party's in-flight request and replicas survive, idle "
+                  "baseline afterwards; distinct = cells exercised" % n,
+                  t0, tier, SIM_ASSUME, extra_cov={"cells_total": n, "exhaustive": True}, min_events={"conn_closed_by_daemon": 1000})
+
+
+@check("C13")
+def c13(tier):
+    t0 = time.time()
+    s = seed()
+    q = tier == "quick"
+    from .scen_http import templates
+    cases = mk("http", 6 if q else 60, s, "default", mode="templates")
+    names = sorted(templates())
+    for ti, tn in enumerate(names):
+        for part in range(8):
+            cases.append(dict(kind="http", seed=s * 7919 + ti * 100 + part, config="default", params=dict(mode="truncate", template=tn, part=part, nparts=8)))
+            for rep in range(2 if q else 12):
+                cases.append(dict(kind="http", seed=s * 7919 + ti * 100 + part + 1000 * (rep + 1), config="default",
+                                  params=dict(mode="corrupt", template=tn, part=part, nparts=8)))
+    cases += mk("http", 300 if q else 6000, s + 1, "default", mode="mutate", count=60)
+    cases += mk("http", 60 if q else 1000, s + 2, "smallbuf", mode="mutate", count=60)
+    res = run_cases(cases)
+    return report("C13", "exploration", res,
+                  "valid upgrade templates (header order/case/extra headers/several protocol tokens/target suffix) must be answered 101 with the right digest and "
+                  "the jet subprotocol; requests invalid by construction (wrong path/method/version, missing or wrong Upgrade/Connection/key/version 13/"
+                  "subprotocol, malformed or over-long lines, ...) must never be answered 101 and must get an HTTP error status or a close; every template "
+                  "truncated at EVERY byte then FIN/RST, corrupted at EVERY position (one byte, seeded value), random multi-byte mutations; after each exchange "
+                  "the connection must be released; at the end peer count, heap, descriptors, registrations are compared with the baseline and SIGTERM must "
+                  "exit cleanly under ASan/LSan; distinct = (class, label, status, closed) signatures",
+                  t0, tier, SIM_ASSUME, min_events={"exchanges": 2000, "truncation_points": 300, "corruption_points": 300})
